@@ -302,6 +302,20 @@ func runC07(res *hx.Result, rng *hx.Rng, tier string, outdir string) {
 		}
 		add(c07job{entry: entry, sig: t.Sig(), t: t, input: input, desc: desc, hostCount: hc})
 	}
+	// directed: every scalar element kind behind a list / map count that is far larger than the data
+	for _, x := range "cCwWiIlLfdbs" {
+		for _, cnt := range []uint32{0x00100000, 0x10000000, 0x7fffffff, 0x80000000, 0xffffffff} {
+			var in [4]byte
+			binary.LittleEndian.PutUint32(in[:], cnt)
+			lt := wg.List(wg.Scalar(string(x)))
+			add(c07job{entry: k8Refl, sig: lt.Sig(), t: lt, input: append(in[:], 1, 2, 3), desc: "directed list count", hostCount: cnt})
+			add(c07job{entry: k8SigRead, sig: lt.Sig(), t: lt, input: append(in[:], 1, 2, 3), desc: "directed list count", hostCount: cnt})
+			if x != 'f' && x != 'd' && x != 'b' {
+				mt := wg.Map(wg.Scalar(string(x)), wg.Scalar("i"))
+				add(c07job{entry: k8Refl, sig: mt.Sig(), t: mt, input: append(in[:], 1, 2, 3), desc: "directed map count", hostCount: cnt})
+			}
+		}
+	}
 	// the witnesses of the refutation theorems, always
 	add(c07job{entry: k8SigRead, sig: "[v]", t: wg.List(wg.Scalar("v")), input: []byte{0xff, 0xff, 0xff, 0xff}, desc: "witness sig_spin_zero_width", hostCount: 0xffffffff})
 	add(c07job{entry: k8MetaObject, sig: wg.MetaObjectTy().Sig(), t: wg.MetaObjectTy(), input: []byte{0xff, 0xff, 0xff, 0xff}, desc: "witness gen_alloc_from_wire_count", hostCount: 0xffffffff})
@@ -372,7 +386,7 @@ func runC07(res *hx.Result, rng *hx.Rng, tier string, outdir string) {
 		res.Count(fmt.Sprintf("%d|%s|%x", j.entry, j.sig, j.input), j.desc != "valid")
 		res.Dist("entry:" + k7Names[j.entry])
 		res.Dist("outcome:" + []string{"ok", "error", "panic", "", "", "hang", "crash"}[o.class])
-		if strings.HasPrefix(j.desc, "count at offset") {
+		if strings.HasPrefix(j.desc, "count at offset") || strings.HasPrefix(j.desc, "directed") {
 			res.Dist("input:length/count field replaced")
 		} else {
 			res.Dist("input:" + strings.SplitN(j.desc, ":", 2)[0])
